@@ -48,6 +48,8 @@ Definition isa_tbl : list (N * list N) :=
    (13, [7])%N;
    (14, [8])%N;
    (15, [4])%N;
-   (16, [4])%N].
+   (16, [4])%N;
+   (17, [4])%N;
+   (18, [4])%N].
 Definition cls_transport : N := 4%N.
 Definition domains_distinct : bool := true.
